@@ -1,6 +1,8 @@
 package main
 
 import (
+	"strings"
+
 	"golang.org/x/tools/go/ssa"
 )
 
@@ -78,4 +80,130 @@ func (k *K) factsAtScoped(root *FnInfo, sc Scope, in ssa.Instruction) []Fact {
 		out = append(out, root.FactsAt(sc.Outer.Block())...)
 	}
 	return out
+}
+
+// calleeInfo returns the analysis of the in-repository static callee whose call has the
+// given term in fi, expressed in fi's vocabulary (parameters substituted by arguments).
+func (fi *FnInfo) calleeInfo(callT *Term) *FnInfo {
+	if callT == nil || callT.Op != "call" || fi.depth >= 2 {
+		return nil
+	}
+	want := callT.String()
+	for _, blk := range fi.Fn.Blocks {
+		for _, in := range blk.Instrs {
+			c, ok := in.(*ssa.Call)
+			if !ok || c.Call.IsInvoke() || c.Call.StaticCallee() == nil || fi.T.Of(c).String() != want {
+				continue
+			}
+			callee := c.Call.StaticCallee()
+			if callee.Blocks == nil || callee.Pkg == nil || !strings.HasPrefix(callee.Pkg.Pkg.Path(), modPath) {
+				return nil
+			}
+			env := map[*ssa.Parameter]*Term{}
+			for i, p := range callee.Params {
+				if i < len(c.Call.Args) {
+					env[p] = fi.T.Of(c.Call.Args[i])
+				}
+			}
+			sub := &FnInfo{w: fi.w, Fn: callee, reachNo: map[int]map[int]bool{}, depth: fi.depth + 1}
+			sub.T = &Termer{w: fi.w, fn: callee, env: env, visited: map[ssa.Value]bool{}, cache: map[ssa.Value]*Term{}, Inline: true}
+			sub.initFacts()
+			return sub
+		}
+	}
+	return nil
+}
+
+// boolResultRequires reports whether a boolean function can return `mode` only when some
+// fact satisfying pred holds: every return that may carry `mode` is either a constant
+// reached only across an edge with such a fact, or returns a condition that is itself
+// such a fact when it equals `mode`. This is how a disjunction or conjunction that was
+// moved into a predicate helper ("a == x || b == x || c == x") is recognised.
+func (fi *FnInfo) boolResultRequires(mode bool, pred func(Fact) bool) bool {
+	ms := "false"
+	if mode {
+		ms = "true"
+	}
+	anyAtom := func(v ssa.Value) bool {
+		for _, a := range fi.atoms(v, mode) {
+			if pred(a) {
+				return true
+			}
+		}
+		return false
+	}
+	// a fact satisfying pred holds on the control-flow edge from -> to: it dominates `from`,
+	// or it is the condition of the branch that ends `from`, with the polarity of that edge
+	onEdge := func(from, to *ssa.BasicBlock) bool {
+		if fi.HasFact(from, pred) {
+			return true
+		}
+		if len(from.Instrs) == 0 || len(from.Succs) != 2 || from.Succs[0] == from.Succs[1] {
+			return false
+		}
+		iff, ok := from.Instrs[len(from.Instrs)-1].(*ssa.If)
+		if !ok {
+			return false
+		}
+		for _, a := range fi.atoms(iff.Cond, from.Succs[0] == to) {
+			if pred(a) {
+				return true
+			}
+		}
+		return false
+	}
+	rets := fi.Returns()
+	if len(rets) == 0 {
+		return false
+	}
+	for _, r := range rets {
+		if len(r.Instr.Results) != 1 {
+			return false
+		}
+		v := RetVal(r.Instr, 0)
+		if c, ok := v.(*ssa.Const); ok && c.Value != nil {
+			if c.Value.String() != ms {
+				continue
+			}
+			if fi.PathAvoidingX(r.Instr, nil, pred) != nil {
+				return false
+			}
+			continue
+		}
+		if phi, ok := v.(*ssa.Phi); ok {
+			for i, e := range phi.Edges {
+				if c, ok := e.(*ssa.Const); ok && c.Value != nil {
+					if c.Value.String() != ms {
+						continue
+					}
+					if !onEdge(phi.Block().Preds[i], phi.Block()) {
+						return false
+					}
+					continue
+				}
+				if !anyAtom(e) && !onEdge(phi.Block().Preds[i], phi.Block()) {
+					return false
+				}
+			}
+			continue
+		}
+		if !anyAtom(v) && fi.PathAvoidingX(r.Instr, nil, pred) != nil {
+			return false
+		}
+	}
+	return true
+}
+
+// edgeImplies: the fact f satisfies pred itself, or f is the boolean result of an
+// in-repository predicate helper that can only have that value when pred holds.
+func (fi *FnInfo) edgeImplies(f Fact, pred func(Fact) bool) bool {
+	if pred(f) {
+		return true
+	}
+	if (f.Op == "true" || f.Op == "false") && f.L != nil && f.L.Op == "call" {
+		if sub := fi.calleeInfo(f.L); sub != nil {
+			return sub.boolResultRequires(f.Op == "true", pred)
+		}
+	}
+	return false
 }
